@@ -98,6 +98,23 @@ Proof.
   exact (req_matches_holds _ _ auth st market caller Hf Hall).
 Qed.
 
+Lemma cross_market_items :
+  forall row, In row gen_endpoints ->
+  forall auth st req_market item_market caller,
+    item_changed (ep_name row) auth st req_market item_market caller = true ->
+    match documented_requirement (ep_name row) with
+    | RPerm p => caller = auth \/ In (item_market, caller, p) st
+    | RAuthority => caller = auth
+    | RRejectAll => False
+    | RDelegated _ => True
+    | RUnknown => False
+    end.
+Proof.
+  intros row Hin auth st rm im caller H. unfold item_changed in H.
+  apply andb_true_iff in H as [Ha He]. apply N.eqb_eq in He. subst im.
+  exact (endpoint_needs_its_permission row Hin auth st rm caller Ha).
+Qed.
+
 Lemma generated_equals_documented :
   tables_match documented_endpoints generated_requirements = true
   /\ nodup_strings (map ep_name gen_endpoints) = true
